@@ -498,3 +498,76 @@ Proof.
   split; [exists 4%nat; split; [repeat constructor|repeat constructor]|].
   repeat constructor; unfold small_int; vm_compute; reflexivity.
 Qed.
+
+(* ---- round 6: BIG tables (the SIZE of one write call).  A table of tens of thousands of rows is a small block of rows
+   repeated (run-length form, Corr/C03T.v); the verdict is decided segment by segment and these theorems lift it to the
+   expanded table, for every count (unbounded) ---- *)
+From BNP Require Corr.C03T Proofs.C03_big.
+
+(* a block written n times over = its canonical bytes n times over; every format, every n *)
+Theorem C03_big_serialise_tile :
+  forall (f : fmt) (blk : list row) (n : Z), serialise f (C03T.tile blk n) = C03T.tile (serialise f blk) n.
+Proof. exact C03_big.serialise_tile. Qed.
+Print Assumptions C03_big_serialise_tile.
+
+(* cutting a big table at any block boundary (block-wise formatting, pieces) does not change the bytes *)
+Theorem C03_big_split_at_block_boundary :
+  forall (f : fmt) (blk : list row) (n m : Z), 0 <= n -> 0 <= m ->
+    serialise f (C03T.tile blk (n + m)) = serialise f (C03T.tile blk n) ++ serialise f (C03T.tile blk m).
+Proof. exact C03_big.serialise_tile_split. Qed.
+Print Assumptions C03_big_split_at_block_boundary.
+
+(* segment-wise equality of run-length forms implies equality of what they stand for *)
+Theorem C03_big_rle_eqb_sound :
+  forall x y : C03T.rle Z, C03T.rle_eqb Z.eqb x y = true -> C03T.expand x = C03T.expand y.
+Proof. exact C03_big.rle_eqb_sound. Qed.
+Print Assumptions C03_big_rle_eqb_sound.
+
+(* the run-length Spec stands for the Spec of the expanded history: header exactly once ++ canonical bytes of all rows *)
+Theorem C03_big_spec_rle_expand :
+  forall (f : fmt) (hdr : list Z) (h : list C03T.bsession),
+    C03T.expand (C03T.spec_rle f hdr h) = spec_file f hdr (C03T.full_hist h).
+Proof. exact C03_big.spec_rle_expand. Qed.
+Print Assumptions C03_big_spec_rle_expand.
+
+(* a big case accepted by the verdict wrote, without raising, exactly the canonical file of the expanded history *)
+Theorem C03_big_spec_ok_written :
+  forall b : C03T.bcase, C03T.spec_ok_big b = true ->
+    C03T.b_err b = 0 /\
+    C03T.expand (C03T.b_written b) = spec_file (C03T.b_fmt b) (C03T.b_header b) (C03T.full_hist (C03T.b_hist b)).
+Proof. exact C03_big.spec_ok_big_written. Qed.
+Print Assumptions C03_big_spec_ok_written.
+
+(* the Model's from_data (any format) on a table of any size equals the concatenation of from_data on its blocks *)
+Theorem C03_big_from_data_blocks :
+  forall (f : fmt) (a b : list row), a <> [] -> b <> [] -> table_ok f a -> table_ok f b -> table_ok f (a ++ b) ->
+    from_data f (a ++ b) = (0, snd (from_data f a) ++ snd (from_data f b)).
+Proof. exact C03_big.from_data_blocks. Qed.
+Print Assumptions C03_big_from_data_blocks.
+
+Theorem C03_big_from_data_tile :
+  forall (f : fmt) (blk : list row) (n : Z), C03T.tile blk n <> [] -> table_ok f (C03T.tile blk n) ->
+    from_data f (C03T.tile blk n) = (0, C03T.tile (serialise f blk) n).
+Proof. exact C03_big.from_data_tile. Qed.
+Print Assumptions C03_big_from_data_tile.
+
+(* non-vacuity: a VCF table of 2 rows x 40000 + 1 row written in one call (80001 rows): accepted; the same observation
+   with POS written +2 in the repeated block is rejected *)
+Example C03_nonvacuous_big :
+  let r1 := [FS [99]; FI 5; FS [46]; FS [65]; FS [84]; FS [46]; FS [46]; FS [46]] in
+  let r2 := [FS [99; 104]; FI 98; FS [46]; FS [65]; FS [84]; FS [46]; FS [46]; FS [46]] in
+  let hdr := [35; 35; 97; 10] in
+  let l1 := [99; 9; 54; 9; 46; 9; 65; 9; 84; 9; 46; 9; 46; 9; 46; 10] in
+  let l1' := [99; 9; 55; 9; 46; 9; 65; 9; 84; 9; 46; 9; 46; 9; 46; 10] in
+  let l2 := [99; 104; 9; 57; 57; 9; 46; 9; 65; 9; 84; 9; 46; 9; 46; 9; 46; 10] in
+  let l2' := [99; 104; 9; 49; 48; 48; 9; 46; 9; 65; 9; 84; 9; 46; 9; 46; 9; 46; 10] in
+  let mk w := {| C03T.b_fmt := Vcf; C03T.b_schema := [6; 1; 0; 0; 0; 0; 0; 0]; C03T.b_header := hdr; C03T.b_gz := false;
+                 C03T.b_hist := [ {| C03T.bs_append := false;
+                                     C03T.bs_calls := [ {| C03T.bc_stream := false;
+                                                           C03T.bc_chunks := [ [([r1; r2], 40000); ([r1], 1)] ] |} ] |} ];
+                 C03T.b_err := 0; C03T.b_written := w; C03T.b_read_ok := true;
+                 C03T.b_read := [([r1; r2], 40000); ([r1], 1)] |} in
+  C03T.spec_ok (C03T.Big (mk [(hdr, 1); (l1 ++ l2, 40000); (l1, 1)])) = true
+  /\ C03T.model_ok (C03T.Big (mk [(hdr, 1); (l1 ++ l2, 40000); (l1, 1)])) = true
+  /\ C03T.spec_ok (C03T.Big (mk [(hdr, 1); (l1' ++ l2', 40000); (l1', 1)])) = false.
+Proof. vm_compute. repeat split. Qed.
